@@ -331,6 +331,48 @@ def openStore (w : Which) (d : Durable) : Option Durable :=
 def reopen (d : Durable) : Option Durable :=
   (openStore .B d).bind (openStore .F)
 
+/-- The same constructor, step by step: every durable step it takes (the
+index's own start-up transaction, the trim of a partial entry, the reset of an
+interrupted first initialisation, the genesis write and its index transaction,
+the reconciling truncate) is a point at which the process can die, a file
+write at every torn length.  The result is `true` iff the constructor succeeds.
+`reopenR_quiet` (Lemmas/StoreStartup) ties it to `openStore`. -/
+def stageIndex (c : Ctx) : R Bool := dbUpdate id c   -- newHeaderIndex: buckets (nothing the model tracks)
+
+def stageTrim (w : Which) (c : Ctx) : R Bool :=          -- trimPartialHeader
+  if (c.d.file w).junk = 0 then R.ok true c
+  else fileTruncate w (some { c.d.file w with junk := 0 }) c
+
+def stageReset (w : Which) (c : Ctx) : R Bool :=         -- resetInterruptedInit
+  if (c.d.file w).ents.length = 1 ∧ c.d.db.hasTip w = false
+  then fileTruncate w (some { c.d.file w with ents := [] }) c else R.ok true c
+
+def stageSync (w : Which) (c : Ctx) : R Bool :=
+  let f := c.d.file w
+  if f.corrupt then .ok false c else
+  match f.ents.getLast? with
+  | none =>
+    (match w with
+     | .B => writeBlocks [0] 0 c
+     | .F => writeFilters [0] 0 c).bind fun o c => R.ok (o == Out.ok) c
+  | some latest =>
+    match (match w with | .B => btipHeight? c.d | .F => ftipHeight? c.d) with
+    | none => .ok false c
+    | some (tipId, tipH) =>
+      let fileH := f.ents.length - 1
+      if w = .B ∧ latest = tipId then .ok true c
+      else if tipH > fileH then .ok false c
+      else truncateHeaders w (fileH - tipH) c
+
+/-- run `next` if the stage before it succeeded -/
+def R.andThen (r : R Bool) (next : Ctx → R Bool) : R Bool :=
+  r.bind fun ok c => if ok then next c else .ok false c
+
+def openStoreR (w : Which) (c : Ctx) : R Bool :=
+  (((stageIndex c).andThen (stageTrim w)).andThen (stageReset w)).andThen (stageSync w)
+
+def reopenR (c : Ctx) : R Bool := (openStoreR .B c).andThen (openStoreR .F)
+
 inductive Op
   | wb (ids : List Nat)
   | wf (fids : List Nat)
@@ -377,9 +419,17 @@ def exec (d : Durable) (op : Op) (inj : Inj) : Durable × Out :=
     | some (_, tipH), some (_, ftipH) => R.fin (rollTo h (tipH + 1) c tipH ftipH)
     | _, _ => (d, .err)
   | .reopen =>
-    match reopen d with
-    | some d' => (d', .ok)
-    | none => (d, .err)
+    match inj with
+    | .crash _ _ =>
+      -- a start that is itself killed
+      match reopenR c with
+      | .crashed d' => (d', .crashed)
+      | .ok true c' => (c'.d, .ok)
+      | .ok false c' => (c'.d, .err)
+    | _ =>
+      match reopen d with
+      | some d' => (d', .ok)
+      | none => (d, .err)
 
 /-- an empty data directory -/
 def empty : Durable := { bf := { ents := [] }, ff := { ents := [] }, db := {} }
